@@ -31,7 +31,7 @@ m = {
         "guard": "verif-hooks",
         "enable": "cargo feature verif-hooks: harness/Cargo.toml depends on /repo with features=[\"verif-hooks\"]",
         "baseline_off_cmd": "cd /repo && cargo test --workspace --no-fail-fast --offline",
-        "source_commits": ["241c310", "3206da4", "6750664"],
+        "source_commits": ["241c310", "3206da4", "6750664", "18de3e4"],
         "add_only": True,
     },
     "engines": [{"name": "coq-proof+correspondence", "path": "/verif/bin/check",
